@@ -162,9 +162,10 @@ class RechunkCopy(CopyOpSpec):
 
     target = f"{OPS}:_rechunk"
     name = f"{OPS}:_rechunk[regular]"
+    quick_props = ("C05", "C14")
 
     def configs(self, tier):
-        return [dict(ndim=nd) for nd in ((1, 2) if tier == "quick" else (1, 2, 3))]
+        return [dict(ndim=nd) for nd in ((1,) if tier == "quick" else (1, 2))]
 
     def setup(self, c):
         nd = c.cfg["ndim"]
@@ -192,9 +193,10 @@ class MergeChunks(CopyOpSpec):
     wrong rank); every element preserved; result chunking is the requested one."""
 
     target = f"{OPS}:merge_chunks"
+    quick_props = ("C01",)
 
     def configs(self, tier):
-        return [dict(ndim=nd) for nd in ((1, 2) if tier == "quick" else (1, 2, 3))]
+        return [dict(ndim=nd) for nd in ((1,) if tier == "quick" else (1, 2))]
 
     def setup(self, c):
         nd = c.cfg["ndim"]
@@ -384,8 +386,11 @@ class PlannerSpec(FuncSpec):
     max_paths = 6000
     max_seconds = 900
 
+    quick_props = ("C14",)
+
     def configs(self, tier):
-        return [dict(ndim=1), dict(ndim=2)] if tier == "quick" else [dict(ndim=1), dict(ndim=2), dict(ndim=3)]
+        # rank 2 takes several minutes (nonlinear products of all chunk sizes): thorough tier
+        return [dict(ndim=1)] if tier == "quick" else [dict(ndim=1), dict(ndim=2)]
 
     def install(self, c):
         install_planner_env(c)
